@@ -1069,6 +1069,9 @@ pub fn part_c12(run: &mut Run, tier: &str) {
         mds.push(Some((0..n).map(|i| i as u8 ^ 0x5a).collect()));
     }
     mds.push(Some(vec![3u8; 64]));
+    for n in [65_507usize, 65_508, 65_509, 65_535, 65_536, 65_537] {
+        mds.push(Some(vec![5u8; n]));
+    }
     if thorough {
         mds.push(Some(vec![4u8; 1000]));
     }
@@ -1077,6 +1080,9 @@ pub fn part_c12(run: &mut Run, tier: &str) {
     let mut known_ad = 0u64;
     for md in &mds {
         for ad_gen in ads {
+            if md.as_ref().is_some_and(|m| m.len() > 60_000) && ad_gen != Some(&b"a"[..]) {
+                continue;
+            }
             let Ok((secret, hdr)) = EncryptedHeader::generate(cc, &mpk0, &p("A::x"), md.as_deref(), ad_gen) else {
                 fail(run, "C12.a", format!("EncryptedHeader::generate(md {:?}, ad {:?}) failed", md.as_ref().map(Vec::len), ad_gen.map(<[u8]>::len)));
                 continue;
